@@ -235,6 +235,9 @@ int main(int argc, char **argv)
     alarm(20);
     Bytes body = kase.size() >= 2 ? kase.substr(2) : Bytes();
     printf("REPLAY: processResponse on a %zu-byte packet\n", body.size());
+    printf("(a sanitizer report below is printed unsymbolised; set UBSAN_OPTIONS=print_stacktrace=1:symbolize=1 ASAN_OPTIONS=symbolize=1 for names)\n");
+  fflush(stdout);
+
     evalPacket(body, kase, "replay");
     alarm(0);
     uint64_t nv = 0;
